@@ -2,6 +2,7 @@
 From Coq Require Import List NArith ZArith.
 From TarsV Require Import Base.Hex Codec.Wire Codec.Skip Codec.Prim Codec.GenCodec Codec.Corr Codec.GenProofs
   Codec.RoundTrip Codec.RoundTripProofs Codec.TotalProofs Codec.RoundTripExamples Codec.CorrT Codec.Alloc Codec.AllocProofs Gen.Schemas.
+From TarsV Require Xlate.ReaderEquiv.
 Import ListNotations.
 Open Scope N_scope.
 
